@@ -212,7 +212,7 @@ class Impl:
         g.move = wrapped
         err = None
         try:
-            f = [] if shape in ("polyline", "spline") else [float(Fraction(a)) for a in args]
+            f = [] if shape in ("polyline", "spline", "parametric") else [float(Fraction(a)) for a in args]
             kw = {}
             if shape == "polyline":
                 pts = [tuple(float(Fraction(c)) for c in p.split(";")) for p in args]
@@ -232,6 +232,12 @@ class Impl:
             elif shape == "spline":
                 pts = [tuple(float(Fraction(c)) for c in p.split(";")) for p in args]
                 g.trace.spline(pts)
+            elif shape == "parametric":
+                # a user curve in absolute coordinates: straight line p0 -> p1 (p0 need not be the current position)
+                import numpy as np
+                p0, p1 = (np.array([float(Fraction(c)) for c in p.split(";")]) for p in args[:2])
+                length = float(np.linalg.norm(p1 - p0))
+                g.trace.parametric(lambda th: p0 + np.asarray(th)[:, None] * (p1 - p0), length)
             else:
                 raise RuntimeError("harness: unknown shape " + shape)
         except RuntimeError:
@@ -302,6 +308,15 @@ class Impl:
             if self.ctx:
                 cm = self.ctx.pop()
                 cm.__exit__(None, None, None)
+        elif op == "exitraise":
+            # the body of the `with` block raised: the context manager sees the exception and lets it propagate
+            if self.ctx:
+                cm = self.ctx.pop()
+                exc = KeyError("raised inside the with-block by the harness")
+                try:
+                    cm.__exit__(KeyError, exc, None)
+                except KeyError:
+                    pass
         elif op == "feed":
             g.set_feed_rate(parse_val(args[0]))
         elif op == "power":
